@@ -412,7 +412,9 @@ func (e *Exec) antlrResult(name string, recv *Term, args []*Term, res *types.Tup
 	as := append([]*Term{recv}, args...)
 	mkRes := func(i int) *Term {
 		t := res.At(i).Type()
-		r := sfn(fmt.Sprintf("antlr_%s_%d", name, i), sortOf(t), as...)
+		// the result sort is part of the symbol: different receivers have same-named methods of different types
+		// (CommonToken.GetStart() int vs ParserRuleContext.GetStart() Token)
+		r := sfn(fmt.Sprintf("antlr_%s_%d_%s", name, i, strings.Trim(sortTag(sortOf(t)), ".")), sortOf(t), as...)
 		if r.flags&flagHasBound == 0 {
 			e.assume(wfTerm(r, t, e.entryNextOrCur()))
 		}
@@ -468,6 +470,14 @@ func antlrStatic(f *ssa.Function) bool {
 		}
 	}
 	return n > 14
+}
+
+// antlrConstructor: package-level NewX function of the ANTLR runtime or the generated parser.
+func antlrConstructor(f *ssa.Function) bool {
+	if f.Signature.Recv() != nil || f.Pkg == nil || !isAntlrPkg(f.Pkg.Pkg.Path()) {
+		return false
+	}
+	return strings.HasPrefix(f.Name(), "New")
 }
 
 func derefNamed(t types.Type) (*types.Named, bool) {
